@@ -7,26 +7,31 @@
 #define VF_SYMREADER_H
 #include "mp/format.h"
 extern "C" {
-int vf_tk_char(int* pos);
-int vf_tk_uint(int* pos, int* err);
-long vf_tk_int(int* pos, int width, int* err);
-double vf_tk_double(int* pos, int* err);
-const char* vf_tk_name(int* pos, unsigned long* len, int* err);
-const char* vf_tk_string(int* pos, unsigned long* len, int* err);
-void vf_tk_eol(int* pos, int* err);
+// cursor is passed by value; the advanced cursor and the error flag come back in two globals of the harness
+// (no pointers into reader objects: keeps CBMC's value sets small)
+extern int vf_tk_pos, vf_tk_err;
+int vf_tk_char(int pos);
+int vf_tk_uint(int pos);
+long vf_tk_int(int pos, int width);
+double vf_tk_double(int pos);
+const char* vf_tk_name(int pos);          // length in vf_tk_len
+const char* vf_tk_string(int pos);
+extern unsigned long vf_tk_len;
+void vf_tk_eol(int pos);
 int vf_tk_iseof(int pos);
 void vf_tk_error(int pos, const char* msg);
 }
 struct VfReadError { int pos; };
 struct SymReader {
   int pos = 0;
-  char ReadChar() { return (char)vf_tk_char(&pos); }
-  int ReadUInt() { int e = 0; int v = vf_tk_uint(&pos, &e); if (e) throw VfReadError{pos}; return v; }
-  template <typename Int> Int ReadInt() { int e = 0; long v = vf_tk_int(&pos, (int)sizeof(Int), &e); if (e) throw VfReadError{pos}; return (Int)v; }
-  double ReadDouble() { int e = 0; double v = vf_tk_double(&pos, &e); if (e) throw VfReadError{pos}; return v; }
-  fmt::StringRef ReadName() { int e = 0; unsigned long n = 0; const char* p = vf_tk_name(&pos, &n, &e); if (e) throw VfReadError{pos}; return fmt::StringRef(p, n); }
-  fmt::StringRef ReadString() { int e = 0; unsigned long n = 0; const char* p = vf_tk_string(&pos, &n, &e); if (e) throw VfReadError{pos}; return fmt::StringRef(p, n); }
-  void ReadTillEndOfLine() { int e = 0; vf_tk_eol(&pos, &e); if (e) throw VfReadError{pos}; }
+  void chk() { pos = vf_tk_pos; if (vf_tk_err) throw VfReadError{pos}; }
+  char ReadChar() { int c = vf_tk_char(pos); pos = vf_tk_pos; return (char)c; }
+  int ReadUInt() { int v = vf_tk_uint(pos); chk(); return v; }
+  template <typename Int> Int ReadInt() { long v = vf_tk_int(pos, (int)sizeof(Int)); chk(); return (Int)v; }
+  double ReadDouble() { double v = vf_tk_double(pos); chk(); return v; }
+  fmt::StringRef ReadName() { const char* p = vf_tk_name(pos); chk(); return fmt::StringRef(p, vf_tk_len); }
+  fmt::StringRef ReadString() { const char* p = vf_tk_string(pos); chk(); return fmt::StringRef(p, vf_tk_len); }
+  void ReadTillEndOfLine() { vf_tk_eol(pos); chk(); }
   bool IsEOF() const { return vf_tk_iseof(pos) != 0; }
   const char* ptr() const { return 0; }
   template <typename... A> void ReportError(fmt::CStringRef msg, const A&...) { vf_tk_error(pos, msg.c_str()); throw VfReadError{pos}; }
